@@ -743,6 +743,30 @@ func (ex *Exec) runLemma() (err error) {
 
 // ghostUpdate executes `NAME = EXPR` (optionally guarded) on a ghost variable.
 func (ex *Exec) ghostUpdate(st *State, e *Env, g *Clause) {
+	if call, ok := g.Target.Expr.(*ast.CallExpr); ok {
+		// update of a ghost function at one argument tuple
+		pf := ex.prog.ghostFunOf(e.info, call.Fun)
+		if pf == nil {
+			ex.abort("ghost update target %s is not a ghostfun application", g.Label)
+		}
+		ne := &Env{st: st, pkgPath: pf.PkgPath, info: ex.prog.infoFor(pf.PkgPath), vars: map[string]BVal{}, cur: e.cur, old: e.old, allocLo: e.allocLo}
+		i := 0
+		for _, fld := range pf.Decl.Type.Params.List {
+			for _, nm := range fld.Names {
+				ne.vars[nm.Name] = BVal{Val: e.eval(call.Args[i])}
+				i++
+			}
+		}
+		f, args := ne.ghostFunFamily(pf, pf.Decl)
+		nv := e.eval(g.Expr)
+		if g.Cond != nil {
+			c := e.eval(g.Cond.Expr)
+			nv = ite(c, nv, st.readFam(st.heap, f, args...))
+		}
+		st.sc.comment("ghost %s = %s", g.Label, g.Text)
+		st.writeFam(f, args, nv)
+		return
+	}
 	var v *types.Var
 	switch t := g.Target.Expr.(type) {
 	case *ast.Ident:
